@@ -506,9 +506,15 @@ def bounded_native(ck):
                 c.simulation.cloud_model = Simulation.PressureMapCloud(month=int(rng.integers(1, 13)), version=strings[trial % 4])
             if trial % 4 == 3:
                 c.simulation.cloud_model = Simulation.MonoCloud(altitude=float(rng.uniform(0, 15)))
-            create_toml(path, c)
-            back = config_from_toml(path)
             n += 1
+            try:
+                create_toml(path, c)
+                back = config_from_toml(path)
+            except Exception as ex:
+                # a valid configuration that cannot be written and read back is a failed round trip, not a problem of this design
+                fails.append({"obligation": "bounded.roundtrip", "clause": "config_from_toml(create_toml(c)) succeeds for a valid configuration", "input": {"trial": trial, "title": s_, "seed": ck.seed,
+                              "spectrum": type(c.simulation.spectrum).__name__, "cloud_model": type(c.simulation.cloud_model).__name__}, "observed": "raised %s: %s" % (type(ex).__name__, str(ex)[:300])})
+                continue
             d = same(raw(c), raw(back))
             if d:
                 fails.append({"obligation": "bounded.roundtrip", "clause": "config_from_toml(create_toml(c)) == c (floats to 1 ulp-scale)", "input": {"trial": trial, "title": s_, "seed": ck.seed},
